@@ -72,6 +72,12 @@ class FCFG(CFG):
                                   production.features, ParseTree(production.head))
                 if processed.add(end_idx, new_state):
                     chart[end_idx].append(new_state)
+        # The variable may already have been completed on the empty span
+        # (epsilon productions): the completer will not see this state
+        for done in list(processed.generator(end_idx)):
+            if not done.is_incomplete() and done.positions[0] == end_idx \
+                    and done.production.head == next_var:
+                _advance(done, state, chart, processed)
 
     def contains(self, word: Iterable[Union[Terminal, str]]) -> bool:
         """ Gives the membership of a word to the grammar
@@ -122,20 +128,17 @@ class FCFG(CFG):
         first_state = State(dummy_rule, (0, 0, 0), dummy_rule.features, ParseTree("BEGIN"))
         chart[0].append(first_state)
         processed.add(0, first_state)
-        for i in range(len(chart) - 1):
+        for i in range(len(chart)):
             while chart[i]:
                 state = chart[i].pop()
                 if state.is_incomplete() and state.next_is_variable():
+                    # Also on the last position: epsilon productions
                     self.__predictor(state, chart, processed)
                 elif state.is_incomplete():
-                    if state.next_is_word(word[i]):
+                    if i < len(word) and state.next_is_word(word[i]):
                         _scanner(state, chart, processed)
                 else:
                     _completer(state, chart, processed)
-        while chart[len(chart) - 1]:
-            state = chart[len(chart) - 1].pop()
-            if not state.is_incomplete():
-                _completer(state, chart, processed)
         for state in processed.generator(len(word)):
             if state.positions[0] == 0 and not state.is_incomplete() and state.production.head == self.start_symbol:
                 return state
@@ -208,18 +211,23 @@ def _completer(state, chart, processed):
     for next_state in list(processed.generator(begin_idx)):
         # next_state[1][1] == begin_idx always true
         if next_state.is_incomplete() and next_state.production.body[next_state.positions[2]] == head:
-            try:
-                copy_left = state.feature_stucture.copy()
-                copy_left = copy_left.get_feature_by_path(["head"])
-                copy_right = next_state.feature_stucture.copy()
-                copy_right_considered = copy_right.get_feature_by_path([str(next_state.positions[2])])
-                copy_right_considered.unify(copy_left)
-            except FeatureStructuresNotCompatibleException:
-                continue
-            parse_tree = ParseTree(next_state.parse_tree.value)
-            parse_tree.sons = next_state.parse_tree.sons + [state.parse_tree]
-            new_state = State(next_state.production,
-                              (next_state.positions[0], state.positions[1], next_state.positions[2] + 1),
-                              copy_right, parse_tree)
-            if processed.add(state.positions[1], new_state):
-                chart[state.positions[1]].append(new_state)
+            _advance(state, next_state, chart, processed)
+
+
+def _advance(state, next_state, chart, processed):
+    # Move next_state over the complete state, if their features unify
+    try:
+        copy_left = state.feature_stucture.copy()
+        copy_left = copy_left.get_feature_by_path(["head"])
+        copy_right = next_state.feature_stucture.copy()
+        copy_right_considered = copy_right.get_feature_by_path([str(next_state.positions[2])])
+        copy_right_considered.unify(copy_left)
+    except FeatureStructuresNotCompatibleException:
+        return
+    parse_tree = ParseTree(next_state.parse_tree.value)
+    parse_tree.sons = next_state.parse_tree.sons + [state.parse_tree]
+    new_state = State(next_state.production,
+                      (next_state.positions[0], state.positions[1], next_state.positions[2] + 1),
+                      copy_right, parse_tree)
+    if processed.add(state.positions[1], new_state):
+        chart[state.positions[1]].append(new_state)
